@@ -15,10 +15,11 @@ ASSUMPTIONS = [
     "relative tolerance 1e-8 (operations that move the shape and move it back differ in the last digits)",
 ]
 RT, AT = 1e-8, 1e-9
+TINY = 2.0 ** -20
 
 
 # ----------------------------------------------------------------- operations
-def ops_for(cls):
+def ops_for(cls, unit=1.0):
     ops = []
     size_props = dict(
         Polygon=["area", "perimeter", "minimal_bounding_circle_radius"],
@@ -30,8 +31,8 @@ def ops_for(cls):
     )[cls]
     for p in size_props:
         ops.append(("scale:" + p, lambda o, p=p: setattr(o, p, 2.0 * float(getattr(o, p)))))
-    ops.append(("set:centroid", lambda o: setattr(o, "centroid", np.array([0.5, -1.25, 2.0]))))
-    ops.append(("set:center", lambda o: setattr(o, "center", np.array([-3.0, 0.75, 0.5]))))
+    ops.append(("set:centroid", lambda o: setattr(o, "centroid", np.array([0.5, -1.25, 2.0]) * unit)))
+    ops.append(("set:center", lambda o: setattr(o, "center", np.array([-3.0, 0.75, 0.5]) * unit)))
     if cls in ("Polyhedron", "ConvexPolyhedron"):
         ops.append(("diagonalize_inertia", lambda o: o.diagonalize_inertia()))
         ops.append(("sort_faces", lambda o: o.sort_faces()))
@@ -42,7 +43,7 @@ def ops_for(cls):
         ops.append(("to_hoomd", lambda o: o.to_hoomd()))
     # reading everything (properties, structure, containment probes) is not a mutation - but it fills whatever a query memoises,
     # so that a later mutation which forgets to invalidate a memo shows
-    ops.append(("read:observables", lambda o: full_observe(o)))
+    ops.append(("read:observables", lambda o: full_observe(o, unit)))
     # the core of a spheropolytope is public (.polyhedron / .polygon): resizing it is a mutation of the spheropolytope as well
     if cls == "ConvexSpheropolyhedron":
         ops.append(("core:scale:volume", lambda o: setattr(o.polyhedron, "volume", 2.0 * float(o.polyhedron.volume))))
@@ -56,6 +57,16 @@ def ops_for(cls):
 
 def base(cls):
     import coxeter
+
+    if cls.endswith("/tiny"):
+        # the same scenario in a length unit of 2^-20 (an exact rescaling: coordinates, radius, later the assigned centres)
+        o = base(cls[:-5])
+        kw = dict(vertices=np.array(o.vertices, float) * TINY)
+        if hasattr(o, "radius"):
+            kw["radius"] = float(o.radius) * TINY
+        if hasattr(o, "normal") and not hasattr(o, "faces") and not hasattr(o, "polyhedron"):
+            kw["normal"] = np.array(o.normal, float)
+        return type(o)(**kw)
 
     if cls == "Polygon/cw":      # a Polygon listed clockwise about an explicit normal (signed_area < 0)
         return Z.make("Polygon", opposing=True)[0]
@@ -106,7 +117,7 @@ def cyc(f):
     return tuple(f[k:] + f[:k])
 
 
-def structural(obj):
+def structural(obj, unit=1.0):
     """order-insensitive canonical forms of the combinatorial observables"""
     out = {}
     if hasattr(obj, "faces"):
@@ -115,13 +126,14 @@ def structural(obj):
         if hasattr(obj, "neighbors"):
             out["neighbors"] = sorted((faces[i], tuple(sorted(faces[int(j)] for j in nb))) for i, nb in enumerate(obj.neighbors))
         eq = np.array(obj.equations if hasattr(obj, "equations") else obj._equations, float)
+        eq = eq / np.array([1.0, 1.0, 1.0, unit])
         out["face_planes"] = sorted((faces[i], tuple(np.round(eq[i], 7).tolist())) for i in range(len(faces)))
         try:
-            out["face_areas"] = sorted((faces[i], round(float(a), 7)) for i, a in enumerate(obj.get_face_area()))
+            out["face_areas"] = sorted((faces[i], round(float(a) / unit ** 2, 7)) for i, a in enumerate(obj.get_face_area()))
         except Exception as e:  # noqa: BLE001
             out["face_areas"] = ("exc", type(e).__name__)
         if hasattr(obj, "face_centroids"):
-            fc = np.array(obj.face_centroids, float)
+            fc = np.array(obj.face_centroids, float) / unit
             out["face_centroids"] = sorted((faces[i], tuple(np.round(fc[i], 7).tolist())) for i in range(len(faces)))
     return out
 
@@ -142,9 +154,9 @@ def probes(obj):
     return np.array(P)
 
 
-def full_observe(obj):
+def full_observe(obj, unit=1.0):
     o = Z.observe(obj, skip=SKIP)
-    o.update(structural(obj))
+    o.update(structural(obj, unit))
     if type(obj).__name__ in ("Polyhedron", "ConvexPolyhedron", "ConvexSpheropolyhedron", "Polygon", "ConvexPolygon"):
         try:
             P = probes(obj)
@@ -157,24 +169,25 @@ def full_observe(obj):
     return o
 
 
-def compare(chk, cls, hist, obj):
+def compare(chk, cls, hist, obj, unit=1.0):
     try:
         ref = fresh_like(obj)
     except Exception as e:  # noqa: BLE001
         chk.violation("fresh-construction-failed", dict(cls=cls, history=hist, error=type(e).__name__,
                                                         what="the mutated object's vertices no longer construct a shape of its class"))
         return False
-    a, b = full_observe(obj), full_observe(ref)
+    a, b = full_observe(obj, unit), full_observe(ref, unit)
+    at = AT if unit == 1.0 else 0.0      # (scaled scenarios: relative comparison only)
     bad = []
     for k in b:
-        if k not in a or not Z.values_close(a[k], b[k], RT, AT):
+        if k not in a or not Z.values_close(a[k], b[k], RT, at):
             bad.append(k)
     # recorded known finding miniball-randomised-solver: the randomised third-party solver occasionally answers differently for the
     # same input; a miniball-based observable counts as stale only if it differs on every one of three re-evaluations
     for k in [k for k in bad if k.startswith("minimal_bounding")]:
         for _ in range(3):
             va, vb = C.excname(lambda: Z.canon(getattr(obj, k))), C.excname(lambda: Z.canon(getattr(ref, k)))
-            if va[0] == "ok" and vb[0] == "ok" and Z.values_close(va[1], vb[1], RT, AT):
+            if va[0] == "ok" and vb[0] == "ok" and Z.values_close(va[1], vb[1], RT, at):
                 bad.remove(k)
                 if chk.is_known("miniball-randomised-solver"):
                     chk.count("known:miniball(re-evaluation agrees)")
@@ -196,8 +209,11 @@ def run(chk):
                          "six vertex-based classes, plus %d random walks of length %d per class; every prefix is judged; non-trivial = history of length >= 2 "
                          "or containing a reorientation/merge/refused op" % (depth, nwalk, lwalk))
     chk.notes["exhaustive"] = True
-    for cls in list(Z.VERTEX_CLASSES) + ["Polygon/cw", "Polyhedron/noflag"]:
-        ops = ops_for(cls.split("/")[0])
+    # any size: the convex classes are also run in a length unit of 2^-20 (the general classes reach the recorded polytri thresholds there)
+    tiny = [c + "/tiny" for c in ("ConvexPolyhedron", "ConvexSpheropolyhedron", "ConvexPolygon", "ConvexSpheropolygon")]
+    for cls in list(Z.VERTEX_CLASSES) + ["Polygon/cw", "Polyhedron/noflag"] + tiny:
+        unit = TINY if cls.endswith("/tiny") else 1.0
+        ops = ops_for(cls.split("/")[0], unit)
         seqs = []
         for d in range(1, depth + 1):
             seqs += list(itertools.product(range(len(ops)), repeat=d))
@@ -229,7 +245,7 @@ def run(chk):
                         chk.violation("operation-raised", dict(cls=cls, history=list(hist), error=st)); ok = False
                 # only judge the last step of a sequence whose proper prefixes were judged before (exhaustive part) or every step (walks)
                 if ok and (len(seq) > depth or pos == len(seq) - 1):
-                    ok = compare(chk, cls, list(hist), obj)
+                    ok = compare(chk, cls, list(hist), obj, unit)
                 if not ok:
                     failed_prefixes.add(tuple(seq[: pos + 1]))
                     break
@@ -242,13 +258,14 @@ def run(chk):
 def replay(chk, rep):
     d = rep["detail"]
     cls = d["cls"]
-    ops = dict(ops_for(cls.split("/")[0]))
+    unit = TINY if cls.endswith("/tiny") else 1.0
+    ops = dict(ops_for(cls.split("/")[0], unit))
     obj = base(cls)
     out = []
     for name in d["history"]:
         st, _ = C.excname(ops[name], obj)
         out.append((name, st))
     ref = fresh_like(obj)
-    a, b = full_observe(obj), full_observe(ref)
-    diff = {k: (str(a.get(k))[:200], str(b[k])[:200]) for k in b if not Z.values_close(a.get(k), b[k], RT, AT)}
+    a, b = full_observe(obj, unit), full_observe(ref, unit)
+    diff = {k: (str(a.get(k))[:200], str(b[k])[:200]) for k in b if not Z.values_close(a.get(k), b[k], RT, AT if unit == 1.0 else 0.0)}
     return dict(outcomes=out, differing=diff)
